@@ -130,3 +130,62 @@ pub fn run(rep: &mut Report, o: &Opts) {
         rep.count_n("usage_lines_compared_with_model", reqs.len() as u64);
     }
 }
+
+/// what a `MissingRequiredArgument` error carries: the required-usage strings (`ContextKind::InvalidArg`) and the
+/// "smart" usage line (`ContextKind::Usage`), byte for byte against `Usage.missingRequiredError` of the model
+/// (commands without subcommands; the model runs its own parser up to the validator to obtain the matcher)
+pub fn run_err(rep: &mut Report, o: &Opts) {
+    use clap::error::{ContextKind, ContextValue, ErrorKind};
+    let mut rng = Rng::new(o.seed ^ 0x0E44);
+    let cfg = GenCfg { relations: true, defaults: true, subs: false, exotic: false, groups: true, flagsubs: false, settings: true, globals: false };
+    let n_cmds = if o.thorough() { 6000 } else { 350 };
+    let mut reqs: Vec<String> = vec![]; let mut reals: Vec<String> = vec![]; let mut readable: Vec<String> = vec![];
+    let mut tried = 0; let mut accepted = 0;
+    while accepted < n_cmds && tried < n_cmds * 30 {
+        tried += 1;
+        let mut cmd = gen_cmd(&mut rng, &cfg, 0, "prog");
+        usage_bias(&mut rng, &mut cmd);
+        cmd.settings.ignore_errors = false;
+        let mut ux = gen_ux(&mut rng, &cmd); ux.hidden_subs.clear();
+        for (id, names) in &ux.val_names { if let Some(a) = cmd.args.iter_mut().find(|a| &a.id == id) { a.val_names = names.clone(); } }
+        if !real_valid(&cmd) { rep.count("usageerr:invalid_definition(skipped)"); continue; }
+        accepted += 1;
+        for _ in 0..6 {
+            let argv = gen_argv(&mut rng, &cmd, 4);
+            let key = format!("usageerr {} ARGV {:?}", cmd.encode(), argv.iter().map(|a| String::from_utf8_lossy(a).to_string()).collect::<Vec<_>>());
+            let _guard = RealCall::new(&key);
+            let mut envs = vec![];
+            let r = std::panic::catch_unwind(std::panic::AssertUnwindSafe(|| {
+                let c = apply(cmd.build(&mut envs), &ux);
+                c.try_get_matches_from(argv_os(&argv)).err().map(|e| {
+                    let strs = match e.get(ContextKind::InvalidArg) { Some(ContextValue::Strings(v)) => v.clone(), Some(ContextValue::String(x)) => vec![x.clone()], _ => vec![] };
+                    let usage = match e.get(ContextKind::Usage) { Some(ContextValue::StyledStr(u)) => u.to_string(), _ => String::new() };
+                    (e.kind(), strs, usage) })
+            }));
+            for e in envs { std::env::remove_var(e); }
+            let real = match r {
+                Err(_) => { rep.oracle_fail("error-render-panics", &key, "building the MissingRequiredArgument error panicked"); continue; }
+                Ok(Some((ErrorKind::MissingRequiredArgument, strs, usage))) => {
+                    rep.count("usageerr:missing_required_errors");
+                    format!("MR {}{} L {}", strs.len(), strs.iter().map(|x| format!(" {}", hex(x.as_bytes()))).collect::<String>(), hex(usage.as_bytes()))
+                }
+                Ok(_) => { rep.count("usageerr:other_outcome(not compared)"); continue; }
+            };
+            let req = format!("usageerr {} {} {} ARGV {} {}", cmd.depth(), cmd.encode(), enc_ui("prog", &ux, &[]), argv.len(), argv.iter().map(|a| hex(a)).collect::<Vec<_>>().join(" ")).trim_end().to_string();
+            rep.case(&req, argv.len() >= 2);
+            readable.push(format!("{}\nargv={:?}", cmd.summary(0), argv.iter().map(|a| String::from_utf8_lossy(a).to_string()).collect::<Vec<_>>()));
+            reqs.push(req); reals.push(real);
+        }
+    }
+    if o.driver != "none" {
+        let model = driver_batch(&o.driver, &reqs, o.par);
+        for (idx, ((req, m), real)) in reqs.iter().zip(model.iter()).zip(reals.iter()).enumerate() {
+            if m != real {
+                let show = |s: &str| s.split(' ').map(|t| if t.len() > 2 && t.chars().all(|c| c.is_ascii_hexdigit()) { String::from_utf8_lossy(&unhex(t)).to_string() } else { t.to_string() }).collect::<Vec<_>>().join(" | ");
+                rep.disagree("usageerr", req, &format!("{m} [{}]", show(m)), &format!("{real} [{}]", show(real)));
+                if rep.notes.len() < 12 { rep.notes.push(readable[idx].clone()); }
+            }
+        }
+        rep.count_n("missing_required_errors_compared_with_model", reqs.len() as u64);
+    }
+}
